@@ -11,6 +11,13 @@ REPO = os.environ.get("PYVC_REPO", "/repo")
 NATIVE_PY = "/venv/bin/python"
 
 PLANS = {
+    "C01": {
+        "level": "proof",
+        "sidecars": ["params", "charges", "driver"],
+        "extras": [{"name": "c01_provenance_table", "module": "tables.x_checks", "func": "c01_provenance", "python": "vt"}],
+        "explanation": "lookup = table entry or (None, None); apply_force_field partitions atoms into written/unassigned "
+                       "with the state-qualified key; non_trivial serialises exactly the written list; shipped data X",
+    },
     "C02": {
         "level": "proof",
         "sidecars": ["charges", "driver"],
